@@ -51,7 +51,8 @@ def hap_segments(pattern):
 
 
 class Layout:
-    def __init__(self, ref_lens, pattern, scale=1, second_ref=None, name=None):
+    def __init__(self, ref_lens, pattern, scale=1, second_ref=None, name=None, reversed_ids=False):
+        self.reversed_ids = reversed_ids
         self.ref_lens = tuple(ref_lens)
         self.pattern = pattern
         self.scale = scale
@@ -66,7 +67,9 @@ class Layout:
             so += ln
         for ctg, so, ln, sr in hap_segments(pattern):
             i += 1
-            self.segs.append((f"s{i}", ctg, so * scale, ln * scale, sr))
+            # haplotype segments carry names with non-word characters (valid GFA names; ':' is avoided because gaftools
+            # tells stable from unstable paths by it)
+            self.segs.append((f"s{i}" + (".1", "-alt", "#b")[i % 3], ctg, so * scale, ln * scale, sr))
         if second_ref:
             so = 0
             for ln in second_ref:
@@ -76,6 +79,14 @@ class Layout:
 
     def ids(self):
         return [s[0] for s in self.segs]
+
+    def sibling(self):
+        """the same contigs and intervals carried by differently named segments (another build of the same pangenome)"""
+        sib = Layout(self.ref_lens, self.pattern, self.scale, self.second_ref, reversed_ids=True)
+        n = len(sib.segs)
+        names = [x[0] for x in sib.segs][::-1]
+        sib.segs = [(names[k], sn, so, ln, sr) for k, (sid, sn, so, ln, sr) in enumerate(sib.segs)]
+        return sib
 
     def graph(self, links="complete"):
         g = rgfa.Graph()
